@@ -30,14 +30,16 @@
   __CPROVER_assume(impl.observers.wval.n <= ((size_t)1 << 40));        \
   __CPROVER_assume(SRB_INV(&wbuf, G_arrived, impl.shuttingDown, impl.config.maxSyncReceiveBuffer)); \
   G_seq = 0; G_global_calls = 0; G_obs_calls = 0; G_w_calls = 0; G_cleanup_calls = 0; G_obs_next = 0; G_global_seq = 0; G_w_seq = 0; G_cleanup_seq = 0; \
-  G_global_registered = impl.onCloseCb.set; \
+  G_global_registered = impl.onCloseCb.set; G_ag_valid = 0; \
+  __CPROVER_assume(impl.nextObserverId < (uint64_t)-1 && (!(GI < impl.observers.wval.n) || impl.observers.wval.w.id < impl.nextObserverId) && (!(GJ < impl.observers.wval.n) || impl.observers.wval.w2.id < impl.nextObserverId)); \
   Impl impl0 = impl; SyncReceiveBuffer w0 = wbuf; SyncConnectOp wop0 = wop; \
   iora_obsvec vec0 = impl.observers.wval; UserData ud0 = impl.sessionData.wval;
 
 #define OC_DEFS \
    \
-  size_t n0 = impl0.observers.present ? vec0.n : 0; \
-  bool w_live = impl0.observers.present && GI < vec0.n;                  \
+  bool presentR = G_ag_valid ? G_ag_present : impl0.observers.present; iora_obsvec vecR = G_ag_valid ? G_ag_vec : vec0; \
+  size_t n0 = presentR ? vecR.n : 0; \
+  bool w_live = presentR && GI < vecR.n; \
   bool cleanup_due = impl0.sessionData.present && ud0.cleanup && ud0.data != 0;
 
 
@@ -53,7 +55,7 @@ void h_fanout(void)
   {
     IORA_CANARY("h_fanout: other session");
     __CPROVER_assert(impl.pendingConnects.present == impl0.pendingConnects.present && wop.done == wop0.done, "F3a pending connect of every other session untouched");
-    __CPROVER_assert(impl.observers.present == impl0.observers.present && impl.observers.wval.n == vec0.n && impl.observers.wval.w.id == vec0.w.id, "F3b observers of every other session untouched");
+    __CPROVER_assert(G_ag_valid ? (impl.observers.present == G_ag_present && impl.observers.wval.n == G_ag_vec.n && impl.observers.wval.w.id == G_ag_vec.w.id) : (impl.observers.present == impl0.observers.present && impl.observers.wval.n == vec0.n && impl.observers.wval.w.id == vec0.w.id), "F3b the handler itself leaves the observers of every other session untouched (the user's global callback may have changed them)");
     return;
   }
   __CPROVER_assert((st == 0) == impl0.pendingConnects.present, "S0 the handler stops after the first step exactly for a session with a pending connectSync");
@@ -68,14 +70,14 @@ void h_fanout(void)
   OC_DEFS
   __CPROVER_assert(G_global_calls == (impl0.onCloseCb.set ? 1u : 0u) && (!impl0.onCloseCb.set || (G_cb_sid == sid && G_cb_code == reason.code)), "G1 the global close callback runs exactly once (iff registered), with sid and reason");
   __CPROVER_assert(G_obs_calls <= n0, "O0 at most one call per registered observer");
-  __CPROVER_assert(G_w_calls == ((w_live && vec0.w.cb_set) ? 1u : 0u), "O1 each still-registered observer (witness index GI) runs exactly once; nobody else");
+  __CPROVER_assert(G_w_calls == ((w_live && vecR.w.cb_set) ? 1u : 0u) && (G_w_calls == 0 || G_w_called_id == vecR.w.id), "O1 the observer at (arbitrary) position GI of the session's list AS IT IS WHEN THE GLOBAL CALLBACK HAS RETURNED - still registered - runs exactly once; an observer the global callback unregistered does not run, one it registered does");
   __CPROVER_assert(!(G_w_calls == 1 && impl0.onCloseCb.set) || G_global_seq < G_w_seq, "O2 ... after the global close callback");
-  __CPROVER_assert(!impl.observers.present, "O3 the session's observer list is removed");
-  __CPROVER_assert(!(w_live && vec0.w.id == GOID) || !impl.observerToSession.present, "O4 ... and the reverse index of each of its observers");
-  __CPROVER_assert(!impl.observerToSession.present || impl0.observerToSession.present, "O5 the reverse index only shrinks");
+  __CPROVER_assert(!impl.observers.present, "O3 after the fan-out NO observer of the closing session remains in the maps (also none the global callback registered)");
+  __CPROVER_assert(!(w_live && vecR.w.id == GOID) || !impl.observerToSession.present, "O4 ... and the reverse index of each of its observers");
+  __CPROVER_assert(!impl.observerToSession.present || (G_ag_valid ? G_ag_o2s_present : impl0.observerToSession.present), "O5 the handler itself only shrinks the reverse index");
   if (impl0.onCloseCb.set) { IORA_CANARY("h_fanout: global callback"); }
   if (G_w_calls == 1) { IORA_CANARY("h_fanout: witness observer called"); }
-  if (w_live && !vec0.w.cb_set) { IORA_CANARY("h_fanout: empty observer skipped"); }
+  if (w_live && !vecR.w.cb_set) { IORA_CANARY("h_fanout: empty observer skipped"); }
   if (G_obs_calls >= 2) { IORA_CANARY("h_fanout: several observers"); }
 }
 
@@ -132,7 +134,7 @@ void h_onclose(void)
   {
     IORA_CANARY("h_onclose: other session");
     __CPROVER_assert(impl.pendingConnects.present == impl0.pendingConnects.present && wop.done == wop0.done, "F3a pending connect of every other session untouched");
-    __CPROVER_assert(impl.observers.present == impl0.observers.present && impl.observers.wval.n == vec0.n && impl.observers.wval.w.id == vec0.w.id, "F3b observers of every other session untouched");
+    __CPROVER_assert(G_ag_valid ? (impl.observers.present == G_ag_present && impl.observers.wval.n == G_ag_vec.n && impl.observers.wval.w.id == G_ag_vec.w.id) : (impl.observers.present == impl0.observers.present && impl.observers.wval.n == vec0.n && impl.observers.wval.w.id == vec0.w.id), "F3b the handler itself leaves the observers of every other session untouched (the user's global callback may have changed them)");
     __CPROVER_assert(impl.sessionData.present == impl0.sessionData.present && impl.sessionData.wval.data == ud0.data, "F3c user data of every other session untouched");
     __CPROVER_assert(impl.readModes.present == impl0.readModes.present && impl.readModes.wval == impl0.readModes.wval && SAME_BUF(wbuf, w0), "F3d read mode and buffer contents of every other session untouched");
     __CPROVER_assert(impl.receiveBuffers.present == impl0.receiveBuffers.present || (!impl.receiveBuffers.present && w0.closed && !w0.hasData && w0.waiters == 0 && !w0.flushing),
@@ -153,11 +155,11 @@ void h_onclose(void)
   OC_DEFS
   __CPROVER_assert(G_global_calls == (impl0.onCloseCb.set ? 1u : 0u) && (!impl0.onCloseCb.set || (G_cb_sid == sid && G_cb_code == reason.code)), "G1 the global close callback runs exactly once (iff registered), with sid and reason");
   __CPROVER_assert(G_obs_calls <= n0, "O0 at most one call per registered observer");
-  __CPROVER_assert(G_w_calls == ((w_live && vec0.w.cb_set) ? 1u : 0u), "O1 each still-registered observer (witness index GI) runs exactly once; nobody else");
+  __CPROVER_assert(G_w_calls == ((w_live && vecR.w.cb_set) ? 1u : 0u) && (G_w_calls == 0 || G_w_called_id == vecR.w.id), "O1 the observer at (arbitrary) position GI of the session's list AS IT IS WHEN THE GLOBAL CALLBACK HAS RETURNED - still registered - runs exactly once; an observer the global callback unregistered does not run, one it registered does");
   __CPROVER_assert(!(G_w_calls == 1 && impl0.onCloseCb.set) || G_global_seq < G_w_seq, "O2 ... after the global close callback");
-  __CPROVER_assert(!impl.observers.present, "O3 the session's observer list is removed");
-  __CPROVER_assert(!(w_live && vec0.w.id == GOID) || !impl.observerToSession.present, "O4 ... and the reverse index of each of its observers");
-  __CPROVER_assert(!impl.observerToSession.present || impl0.observerToSession.present, "O5 the reverse index only shrinks");
+  __CPROVER_assert(!impl.observers.present, "O3 after the fan-out NO observer of the closing session remains in the maps (also none the global callback registered)");
+  __CPROVER_assert(!(w_live && vecR.w.id == GOID) || !impl.observerToSession.present, "O4 ... and the reverse index of each of its observers");
+  __CPROVER_assert(!impl.observerToSession.present || (G_ag_valid ? G_ag_o2s_present : impl0.observerToSession.present), "O5 the handler itself only shrinks the reverse index");
   __CPROVER_assert(G_cleanup_calls == (cleanup_due ? 1u : 0u) && (!cleanup_due || G_cleanup_data == ud0.data), "U1 the user-data cleanup runs exactly once (iff data and cleanup are registered), with the data");
   __CPROVER_assert(!cleanup_due || ((!impl0.onCloseCb.set || G_global_seq < G_cleanup_seq) && (G_w_calls == 0 || G_w_seq < G_cleanup_seq) && G_cleanup_seq == G_seq), "U2 ... LAST: after the global callback and after every observer (highest sequence number)");
   __CPROVER_assert(!impl.sessionData.present, "U3 the user-data entry is removed");
